@@ -676,6 +676,19 @@ def catalog():
                               {"default": True, "labels": [], "body": {"ty": "uint", "name": "dflt", "arr": None}}]},
                           {"k": "union", "name": "u4", "swty": "color", "swvar": "disc", "arms": [
                               {"labels": ["RED"], "body": None}, {"labels": ["BLUE"], "body": {"ty": "double", "name": "a", "arr": None}}]}])
+    # labels that look like the keyword `default` (ordinary names: enum members, constants) on void and data arms, with and without a real default
+    spec("union:default-lookalikes", [
+        {"k": "enum", "name": "log_level", "members": [["QUIET", "0"], ["DEFAULT", "1"], ["TRACE", "2"], ["DEBUG", "3"]]},
+        {"k": "const", "name": "Default", "val": "7"}, {"k": "const", "name": "dEFAULT", "val": "8"},
+        {"k": "union", "name": "log_config", "swty": "unsigned int", "swvar": "level", "arms": [
+            {"labels": ["DEBUG"], "body": {"ty": "unsigned int", "name": "mask", "arr": None}}, {"labels": ["QUIET"], "body": "void"},
+            {"labels": ["DEFAULT"], "body": "void"}, {"labels": ["TRACE"], "body": "void"}]},
+        {"k": "union", "name": "log_config2", "swty": "log_level", "swvar": "level", "arms": [
+            {"labels": ["DEFAULT"], "body": {"ty": "inner", "name": "cfg", "arr": None}}, {"labels": ["QUIET", "TRACE"], "body": None},
+            {"labels": ["DEBUG"], "body": "void"}]},
+        {"k": "union", "name": "log_config3", "swty": "int", "swvar": "level", "arms": [
+            {"labels": ["Default"], "body": "void"}, {"labels": ["dEFAULT", "3"], "body": None}, {"labels": ["4"], "body": {"ty": "int", "name": "x", "arr": None}},
+            {"default": True, "labels": [], "body": {"ty": "hyper", "name": "other", "arr": None}}]}])
     # the two label/switch constructs of the golden tests combined: a typedef'd integer discriminant whose labels are enum members and
     # named constants (data arms, void arms, fall-through)
     spec("union:typedef-switch-enum-labels", [{"k": "const", "name": "L9", "val": "9"},
